@@ -1039,7 +1039,11 @@ func (r *runner) concurrent(ctx context.Context, inst *bpmn.Process, o Options, 
 				}
 				switch g {
 				case 0:
-					_ = inst.Locator().CloneVariables()
+					for _, it := range inst.Locator().CloneVariables() {
+						// a snapshot's items are read after the lock is released
+						_ = it.Value()
+						_ = it.Type()
+					}
 					_ = inst.Locator().CloneItems("$")
 					_ = inst.Locator().CloneItems(".")
 					_ = inst.Locator().CloneItems("#")
